@@ -11,6 +11,15 @@ func init() {
 
 var rowConfigs = [][]uint8{{63}, {0}, {50}, {3}, {0, 63}, {1, 50}}
 
+// pickRows chooses the TotalRows settings of the map forests of one history: one of the
+// fixed configurations, or (one time in three) two arbitrary values in 0..63.
+func pickRows(g *Gen) []uint8 {
+	if g.Intn(3) == 0 {
+		return []uint8{uint8(g.Intn(64)), uint8(g.Intn(64))}
+	}
+	return rowConfigs[g.Intn(len(rowConfigs))]
+}
+
 // famForest: structured random block histories on all implementations, with root,
 // look-up, proof and undo observations (C01, C02, C06, C10, C11).
 func famForest(g *Gen, tier string, shard, nshards int) {
@@ -19,7 +28,7 @@ func famForest(g *Gen, tier string, shard, nshards int) {
 		nHist, maxBlocks, maxAdds = 40, 60, 40
 	}
 	for h := 0; h < nHist; h++ {
-		s := newSim(g, rowConfigs[g.Intn(len(rowConfigs))])
+		s := newSim(g, pickRows(g))
 		nBlocks := 3 + g.Intn(maxBlocks)
 		for b := 0; b < nBlocks; b++ {
 			mode := g.Intn(8)
